@@ -796,6 +796,12 @@ fn main() {
         counter_file: std::env::var("REFSOLVER_COUNTER").ok(),
     };
     s.log(json!({"session": persona, "seed": seed}));
+    // session boundary in the command/response sequence (a restart() of the client starts a new solver process)
+    if let Some(f) = s.counter_file.clone() {
+        if let Ok(mut k) = std::fs::OpenOptions::new().create(true).append(true).open(format!("{f}.seq")) {
+            let _ = write!(k, "S ");
+        }
+    }
     let stdin = std::io::stdin();
     let mut buf = String::new();
     for line in stdin.lock().lines() {
